@@ -839,6 +839,13 @@ def multi_catalogue():
         cases.append(mk("multi:search_path:bare:%s" % f, "multi/search_path", [seg(v(2), f, lib="search/bare")]))
         cases.append(mk("multi:search_path:path>bare:%s" % f, "multi/search_path",
                         [seg(v(1), "const_int", lib="a/plugin"), seg(v(1), f, lib="search/bare"), seg(v(1), "const_int", lib="b/plugin")]))
+    # a library in the working directory named with a leading `./` (the loader does NOT look there for a bare name)
+    for f in ("echo_first", "const_str", "raise", "no_value"):
+        cases.append(mk("multi:cwd:dot:%s" % f, "multi/cwd_dot", [seg(v(2), f, lib="cwd/dot")]))
+        cases.append(mk("multi:cwd:path>dot:%s" % f, "multi/cwd_dot",
+                        [seg(v(1), "const_int", lib="a/plugin"), seg(v(1), f, lib="cwd/dot")]))
+    cases.append(mk("multi:cwd:dot_missing", "multi/cwd_dot",
+                    [seg(v(1), "const_int", lib="cwd/dot"), seg(v(1), "const_int", lib="cwd/dot_missing")]))
     cases.append(mk("multi:search_path:bare_raise", "multi/search_path",
                     [seg(v(1), "const_int", lib="search/bare"), seg(v(1), "raise", lib="search/bare")]))
     cases.append(mk("multi:search_path:bare_symbol_gone", "multi/search_path",
@@ -860,8 +867,8 @@ def multi_catalogue():
 
 def random_multi(ctx, n):
     rng = ctx.rng("multi")
-    live = ["probe", "a/plugin", "b/plugin", "c/plugin", "deep/a/plugin", "same/one", "same/two", "same/three", "search/bare"]
-    gone = ["nodir/plugin", "empty/plugin", "same/missing", "missing", "search/bare_missing"]
+    live = ["probe", "a/plugin", "b/plugin", "c/plugin", "deep/a/plugin", "same/one", "same/two", "same/three", "search/bare", "cwd/dot"]
+    gone = ["nodir/plugin", "empty/plugin", "same/missing", "missing", "search/bare_missing", "cwd/dot_missing"]
     cases = []
     for i in range(n):
         fpool = rng.sample(FUNCS, 2)
@@ -892,6 +899,7 @@ def run_case(item):
             f.write(prog)
         with open(os.path.join(d, "not_a_library.so"), "w") as f:
             f.write("this is not an ELF object\n")
+        os.symlink(ffi.cwd_source(), os.path.join(d, "libcwd.so"))
         trace_p, probe_p = os.path.join(d, "_trace.log"), os.path.join(d, "_probe.log")
         env = {"MSCRIPT_VERIF_TRACE": trace_p, "MSCRIPT_FFI_PROBE_LOG": probe_p, "MSCRIPT_VERIF_TYPED_PRINT": "1",
                "LD_LIBRARY_PATH": ffi.search_dir()}
